@@ -93,8 +93,12 @@ func (r *Result) Sample(s interface{}) {
 	}
 }
 
+// Violate records a counter-example. At most 3 per (clause, tags) group are kept (and 300 in all), so
+// that one frequent defect does not hide the others; the total is counted in Distribution.
 func (r *Result) Violate(v Violation) {
-	if len(r.Violations) < 200 {
+	key := "violations." + v.Clause + "." + strings.Join(v.Tags, ",")
+	r.Distribution[key]++
+	if r.Distribution[key] <= 3 && len(r.Violations) < 300 {
 		r.Violations = append(r.Violations, v)
 	}
 }
